@@ -410,7 +410,9 @@ fn run_exp(sh: &mut shell::Shell,
     let mut cr_list = Vec::new();
     let pairs = pair_in.into_inner();
     for pair in pairs {
-        let line = pair.as_str().trim();
+        // (a trailing blank escaped with a backslash belongs to the command)
+        let line_kept = parsers::parser_line::trim_cmd(pair.as_str());
+        let line = line_kept.as_str();
         if line.is_empty() {
             continue;
         }
